@@ -17,6 +17,8 @@ mod layout;
 mod objcode;
 mod object;
 mod property;
+#[cfg(feature = "yuja_qmluic_verif")]
+pub mod verif;
 mod xmlutil;
 
 pub use self::binding::*; // re-export
@@ -102,6 +104,9 @@ pub fn build(
             None
         }
     };
+
+    #[cfg(feature = "yuja_qmluic_verif")]
+    verif::observe(&object_tree, &object_code_maps);
 
     Some((form, ui_support))
 }
